@@ -515,4 +515,128 @@ theorem bucketNat_redistribute (rb L M X : Nat) (hrb : 0 < rb) (h1 : L ≤ M) (h
     rw [Nat.add_mul] at this
     omega
 
+
+/-! #### the number of buckets -/
+
+theorem numBucketsAux_eq (rb : Nat) (hrb : 0 < rb) (bits : Nat) :
+    numBucketsAux rb bits = (bits / rb) * (2 ^ rb - 1) + (2 ^ (bits % rb) - 1) := by
+  induction bits using Nat.strongRecOn with
+  | _ bits ih =>
+    rw [numBucketsAux]
+    have hne : ¬ rb = 0 := by omega
+    simp only [hne, dite_false]
+    by_cases hge : bits ≥ rb
+    · simp only [hge, if_true]
+      rw [ih (bits - rb) (by omega)]
+      have h1 : bits / rb = (bits - rb) / rb + 1 := by
+        have := Nat.sub_add_cancel hge
+        conv => lhs; rw [← this]
+        rw [Nat.add_div_right _ hrb]
+      have h2 : bits % rb = (bits - rb) % rb := by
+        have := Nat.sub_add_cancel hge
+        conv => lhs; rw [← this]
+        rw [Nat.add_mod_right]
+      rw [h1, h2, Nat.add_mul]
+      omega
+    · simp only [hge, if_false]
+      have : bits / rb = 0 := Nat.div_eq_of_lt (by omega)
+      have h2 : bits % rb = bits := Nat.mod_eq_of_lt (by omega)
+      rw [this, h2]; simp
+
+/-- **every bucket index is within `num_buckets`** -/
+theorem bucketNat_lt (rb w X L : Nat) (hrb : 0 < rb) (hX : X < 2 ^ w) (hL : L ≤ X) :
+    bucketNat rb X L < numBucketsAux rb w + 1 := by
+  by_cases hxl : X = L
+  · subst hxl; simp [bucketNat]
+  · have hlx : L < X := by omega
+    obtain ⟨bx, dx⟩ := bucketNat_row rb X L hrb hlx
+    rw [bx, numBucketsAux_eq rb hrb w]
+    have hR := dig_le rb X (rowOf rb X L)
+    -- the highest differing bit is below w
+    have hd : X ^^^ L ≠ 0 := by
+      intro e
+      have : X = L := by
+        apply Nat.eq_of_testBit_eq; intro i
+        have := congrArg (fun n => Nat.testBit n i) e
+        simp only [Nat.testBit_xor, Nat.zero_testBit] at this
+        cases hx : X.testBit i <;> cases hl : L.testBit i <;> simp_all
+      omega
+    have ht : Nat.log2 (X ^^^ L) < w := (Nat.log2_lt hd).mpr (Nat.xor_lt_two_pow hX (by omega))
+    have hrow : rb * rowOf rb X L ≤ Nat.log2 (X ^^^ L) := Nat.mul_div_le _ _
+    have hw := Nat.div_add_mod w rb
+    generalize hq : w / rb = q at *
+    generalize hm : w % rb = m at *
+    have hmlt : m < rb := by rw [← hm]; exact Nat.mod_lt _ hrb
+    generalize hr : rowOf rb X L = r at *
+    by_cases hlt : r < q
+    · have : (r + 1) * (2 ^ rb - 1) ≤ q * (2 ^ rb - 1) := Nat.mul_le_mul_right _ (by omega)
+      rw [Nat.add_mul] at this
+      omega
+    · have hrq : r = q := by
+        by_cases hgt : q < r
+        · exfalso
+          have : rb * (q + 1) ≤ rb * r := Nat.mul_le_mul_left _ (by omega)
+          rw [Nat.mul_add] at this
+          omega
+        · omega
+      subst hrq
+      -- the top (partial) row: the digit is below 2^m
+      have hdig : dig rb X r < 2 ^ m := by
+        unfold dig
+        rw [Nat.shiftRight_eq_div_pow]
+        have : X / 2 ^ (rb * r) < 2 ^ m := by
+          rw [Nat.div_lt_iff_lt_mul (Nat.two_pow_pos _), ← Nat.pow_add]
+          have : m + rb * r = w := by omega
+          rw [this]; exact hX
+        exact Nat.lt_of_le_of_lt (Nat.mod_le _ _) this
+      omega
+
+theorem bucketOf_lt (c : RCfg) (hrb : 0 < c.rb) (x lim : BitVec c.w) (h : lim.toNat ≤ x.toNat) :
+    bucketOf c x lim < numBuckets c := by
+  rw [bucketOf_eq]
+  exact bucketNat_lt c.rb c.w _ _ hrb x.isLt h
+
+theorem numBuckets_le (c : RCfg) (hrb : 0 < c.rb) (hrb6 : c.rb ≤ 6) (hw : c.w ≤ 64) : numBuckets c ≤ 4096 := by
+  unfold numBuckets
+  rw [numBucketsAux_eq c.rb hrb]
+  have h1 : c.w / c.rb ≤ 64 := Nat.le_trans (Nat.div_le_self _ _) hw
+  have h2 : 2 ^ c.rb ≤ 2 ^ 6 := Nat.pow_le_pow_right (by decide) hrb6
+  have h3 : c.w % c.rb < c.rb := Nat.mod_lt _ hrb
+  have h4 : 2 ^ (c.w % c.rb) ≤ 2 ^ 6 := Nat.pow_le_pow_right (by decide) (by omega)
+  have h5 : c.w / c.rb * (2 ^ c.rb - 1) ≤ 64 * 63 := Nat.mul_le_mul h1 (by omega)
+  omega
+
+
+/-! #### the bucket lemmas on `BitVec` ranks -/
+
+theorem bucketOf_mono (c : RCfg) (hrb : 0 < c.rb) (lim x y : BitVec c.w)
+    (h1 : lim.toNat ≤ x.toNat) (h2 : x.toNat ≤ y.toNat) : bucketOf c x lim ≤ bucketOf c y lim := by
+  rw [bucketOf_eq, bucketOf_eq]; exact bucketNat_mono c.rb _ _ _ hrb h1 h2
+
+theorem bucketOf_row0 (c : RCfg) (hrb : 0 < c.rb) (lim x y : BitVec c.w)
+    (h1 : lim.toNat ≤ x.toNat) (h2 : lim.toNat ≤ y.toNat)
+    (hb : bucketOf c x lim = bucketOf c y lim) (h0 : bucketOf c x lim < c.radix) : x = y := by
+  rw [bucketOf_eq, bucketOf_eq] at hb
+  rw [bucketOf_eq] at h0
+  exact BitVec.eq_of_toNat_eq (bucketNat_row0_inj c.rb _ _ _ hrb h1 h2 hb h0)
+
+theorem bucketOf_stable (c : RCfg) (hrb : 0 < c.rb) (lim m x : BitVec c.w)
+    (h1 : lim.toNat ≤ m.toNat) (h2 : m.toNat ≤ x.toNat) (hb : bucketOf c m lim < bucketOf c x lim) :
+    bucketOf c x m = bucketOf c x lim := by
+  rw [bucketOf_eq, bucketOf_eq] at hb
+  rw [bucketOf_eq, bucketOf_eq]
+  exact bucketNat_stable c.rb _ _ _ hrb h1 h2 hb
+
+theorem bucketOf_redistribute (c : RCfg) (hrb : 0 < c.rb) (lim m x : BitVec c.w)
+    (h1 : lim.toNat ≤ m.toNat) (h2 : m.toNat ≤ x.toNat)
+    (hb : bucketOf c x lim = bucketOf c m lim) (hrow : c.radix ≤ bucketOf c m lim) :
+    bucketOf c x m < bucketOf c m lim := by
+  rw [bucketOf_eq, bucketOf_eq] at hb
+  rw [bucketOf_eq] at hrow
+  rw [bucketOf_eq, bucketOf_eq]
+  exact bucketNat_redistribute c.rb _ _ _ hrb h1 h2 hb hrow
+
+theorem bucketOf_self (c : RCfg) (x : BitVec c.w) : bucketOf c x x = 0 := by
+  rw [bucketOf_eq]; simp [bucketNat]
+
 end TlxVerif.C13
